@@ -3,6 +3,7 @@ import ParryModel.C12.Lemmas8
 import ParryModel.C12.Lemmas9
 import ParryModel.C12.Lemmas10
 import ParryModel.C12.Theorems2
+import ParryModel.C12.Theorems8
 /-!
 # C12 theorems, eleventh pass (fu5): `fix_silhouette_topology` and `remove_unused_points`, for **every** `Num` instance
 (`Float` included): statements about indices, flags and lists, never about arithmetic.
@@ -26,6 +27,10 @@ import ParryModel.C12.Theorems2
   valid index of the cloud, so no facet ever reads a point out of range.
 * `hull3_vertices_are_input_points` — consequently, for the full-dimensional branch of `try_convex_hull`: every vertex of the returned mesh
   is one of the input points (of the ORIGINAL, un-normalised cloud), every triangle index is a valid vertex index and every vertex is used.
+* `hull3_lowdim_vertices_are_input_points` — the same provenance / index validity for the point, segment and planar (two-sided fan over
+  the modelled 2-D hull) branches: with `hull3_vertices_are_input_points` this covers EVERY `Ok` result of `try_convex_hull`.
+* `hull3_output_edges_twinned` — the conditional closed-surface theorem (`mainLoop_closed_surface`) carried through
+  `remove_unused_points` to the returned index buffer (the remap is one map, injective on used indices: `removeUnused_remap`).
 -/
 namespace C12
 open Model Model.H3 C12.H3
@@ -272,6 +277,42 @@ theorem hull3_lowdim_vertices_are_input_points (negMax : K) (orig : Array (V3 K)
         · have h1 := List.mem_range.mp hid
           simp only; omega
   · exact absurd h (by simp)
+
+/-- **the closed-surface invariant reaches the OUTPUT of `try_convex_hull`**: under the hypothesis of `mainLoop_closed_surface`
+(every attaching pass emits a cyclic silhouette needing no repair) every directed edge of every returned triangle — in the
+returned, compacted index space — has its reverse in a returned triangle. -/
+theorem hull3_output_edges_twinned (negMax : K) (orig : Array (V3 K)) (evec : List (V3 K)) (eval : List K) (ini : Init K)
+    (V : Array (V3 K)) (T : Array T3) (hi : initialMesh negMax orig evec eval = .ok ini)
+    (hrun : RunClosed negMax ini.npts (16 * orig.size * orig.size + 64) 0 ini.ts ini.und)
+    (h : tryConvexHull negMax orig evec eval = .ok (V, T)) :
+    ∀ t : T3, t ∈ T.toList → ∀ j, j < 3 → ∃ t' : T3, t' ∈ T.toList ∧ ∃ j', j' < 3 ∧
+      t'.get j' = t.get ((j + 1) % 3) ∧ t'.get ((j' + 1) % 3) = t.get j := by
+  unfold tryConvexHull at h
+  rw [hi] at h
+  simp only at h
+  split at h
+  · rename_i ts hl
+    simp only [Res.ok.injEq] at h
+    have hT : Twin ts := mainLoop_closed_surface negMax ini.npts _ 0 ini.ts ini.und ts
+      (initial_facets_closed negMax orig evec eval ini hi) (Nat.zero_le _) hrun hl
+    obtain ⟨_, _, hts⟩ := hull3_run_point_indices_valid negMax orig evec eval ini _ ts hi hl
+    obtain ⟨R, hR, _⟩ := removeUnused_remap orig (validTriangles ts) (fun t ht => validTriangles_ok orig.size ts hts t ht)
+    rw [h] at hR
+    simp only at hR
+    have hget : ∀ (t : T3) (j : Nat), (⟨R t.a, R t.b, R t.c⟩ : T3).get j = R (t.get j) := by
+      intro t j; unfold T3.get; split
+      · rfl
+      · split <;> rfl
+    intro t ht j hj
+    rw [hR] at ht ⊢
+    simp only [Array.toList_map, List.mem_map] at ht ⊢
+    obtain ⟨t0, ht0, rfl⟩ := ht
+    obtain ⟨a, ha, hv, rfl⟩ := (mem_validTriangles ts t0).mp ht0
+    obtain ⟨a', j', ha', hj', hv', e1, e2⟩ := output_edges_twinned ts hT a j ha hv hj
+    refine ⟨_, ⟨(tAt ts a').pts, (mem_validTriangles ts _).mpr ⟨a', ha', hv', rfl⟩, rfl⟩, j', hj', ?_, ?_⟩
+    · rw [hget, hget]; exact congrArg R e1
+    · rw [hget, hget]; exact congrArg R e2
+  all_goals exact absurd h (by simp)
 
 /-! ## non-vacuity -/
 
